@@ -550,6 +550,18 @@ def run(rep: Report, tier: str) -> None:
     _check_raises(P, G, rep)
     rep.rule("R23.6", "syntax-error messages: script text is never the receiver of str.format (braces in the quoted source line)")
     _check_format_receivers(P, rep)
+    # ---- R23.7: an error the AST constructor raises can be built (shared with C26 R26.1/R26.2) ----
+    rep.rule("R23.7", "every coded VTL exception constructed in the AST-constructor / parser modules names a catalogued code and supplies every placeholder of its message: "
+                      "otherwise create_ast aborts with a KeyError instead of returning an AST or raising a VTL error")
+    from sa.checks import c26 as _c26
+    _cat, _ = _c26.load_catalogue(P)
+    _n7, _ = _c26.coded_sites(P, rep, _cat, _c26.coded_classes(P), _c26.placeholder_table(_cat), ("R23.7", "R23.7", "R23.7"), prefixes=("vtlengine.AST",))
+    rep.floor("R23.7 coded exception sites in the AST modules", _n7, 10)
+    # ---- R23.8: the AST built for a text does not depend on the texts parsed before (shared with C17 R17.2) ----
+    rep.rule("R23.8", "no function of the AST modules (constructor, DAG analysis, string rendering) writes a process-global other than the reviewed ones: a marker that outlives "
+                      "the parse (e.g. `this ruleset name is already sorted`) makes a later parse of the same text return a different AST")
+    from sa import globalsx as _gx8
+    _gx8.report_written_globals(P, rep, "R23.8", ("vtlengine.AST",), "the AST returned for a text then depends on which texts were parsed earlier in the process")
     rep.assumptions = ["bindings.cpp is analysed as text (no C++ front end with the project's headers is available)",
                        "ANTLR error listeners receive every lexer and parser error", "RC.<NAME> constants are the grammar's alternative labels in SNAKE_CASE"]
 
